@@ -7,6 +7,7 @@
 import PyroModel.Wire
 import PyroProofs.Wire
 import PyroProofs.WireStages
+import PyroProofs.WireReencode
 import PyroModel.SockIO
 import PyroModel.Gen.C06
 import PyroProps.C17
@@ -314,6 +315,115 @@ theorem C06_accepts_only_wellformed (cfg : Cfg) (z : Zlib) (accepted : List Nat)
   · simp only [List.length_append, l6, l34, headerSize]
   · rw [← hc1]; simp only [List.length_take]; omega
   · simp only [List.length_drop]; omega
+
+/-! ### whatever is accepted re-encodes to an equivalent message -/
+
+theorem parseHeader_ok_ranges (cfg : Cfg) (h : Bytes) (H : Header) (hl : h.length = headerSize)
+    (hp : parseHeader cfg h = .ok H) :
+    H.type < 256 ∧ H.serId < 256 ∧ H.flags < 65536 ∧ H.seq < 65536 ∧ H.dataSize < 2 ^ 32 ∧
+    H.annSize < 2 ^ 32 ∧ H.corr.length = 16 := by
+  unfold parseHeader at hp
+  simp only at hp
+  split at hp
+  · cases hp
+  · split at hp
+    · cases hp
+    · simp only [Except.ok.injEq] at hp
+      subst hp
+      simp only [headerSize] at hl
+      have b1 : ∀ (x : Bytes), x.length = 1 → fromBE x < 256 := fun x hx => by
+        have := fromBE_lt x; rw [hx] at this; simpa using this
+      have b2 : ∀ (x : Bytes), x.length = 2 → fromBE x < 65536 := fun x hx => by
+        have := fromBE_lt x; rw [hx] at this; simpa using this
+      have b4 : ∀ (x : Bytes), x.length = 4 → fromBE x < 2 ^ 32 := fun x hx => by
+        have := fromBE_lt x; rw [hx] at this; simpa using this
+      refine ⟨b1 _ ?_, b1 _ ?_, b2 _ ?_, b2 _ ?_, b4 _ ?_, b4 _ ?_, ?_⟩ <;>
+        (simp only [List.length_take, List.length_drop]; omega)
+
+theorem addPayload_walk (z : Zlib) (H : Header) (body : Bytes) (d : Decoded)
+    (h : addPayload z H body = .ok d) :
+    body.length = H.dataSize + H.annSize ∧ walkAnns H.annSize body H.annSize [] = .ok d.anns := by
+  unfold addPayload at h
+  by_cases hl : body.length ≠ H.dataSize + H.annSize
+  · rw [if_pos hl] at h; cases h
+  · rw [if_neg hl] at h
+    refine ⟨by omega, ?_⟩
+    generalize hw : walkAnns H.annSize body H.annSize [] = w at h
+    cases w with
+    | error e => simp at h
+    | ok anns =>
+      simp only at h
+      by_cases hc : hasBit H.flags FLAGS_COMPRESSED = true
+      · rw [if_pos hc] at h
+        generalize hz : z.decompress (List.drop H.annSize body) = zr at h
+        cases zr with
+        | none => simp at h
+        | some dd => simp only [Except.ok.injEq] at h; subst h; rfl
+      · rw [if_neg hc] at h
+        simp only [Except.ok.injEq] at h; subst h; rfl
+
+/-- the message a decoded message stands for (its correlation id travels explicitly) -/
+def msgOf (d : Decoded) : Msg :=
+  { type := d.type, serId := d.serId, flags := d.flags, seq := d.seq, payload := d.data, anns := d.anns,
+    corr := some d.corr }
+
+/-- **C06_reencode.**  Whatever `recv_stub` accepts can be sent again: encoding the decoded message
+    (uncompressed, with any limit that admits it) succeeds, and decoding those bytes gives back the same
+    type, serializer, sequence number, payload, annotations and correlation id, with flags equal up
+    to the two codec-managed bits.  (`hdata`: a decompressed payload must itself fit the 32-bit
+    length field.) -/
+theorem C06_reencode (cfg cfg' : Cfg) (z : Zlib) (accepted : List Nat) (stream : Bytes)
+    (d : Decoded) (n : Nat) (rest rest' : Bytes) (hz : z.Lawful)
+    (h : recvStub cfg z accepted stream = ⟨.ok d, n, rest⟩)
+    (hcomp : cfg'.compression = false) (hdata : d.data.length < 2 ^ 32)
+    (hmax : d.data.length + annSize d.anns ≤ cfg'.maxSize) :
+    ∃ bs, encode cfg' z (msgOf d) = .ok bs ∧
+      (recvStub cfg' z [] (bs ++ rest')).out =
+        .ok { d with flags := setBit (clearBit d.flags FLAGS_COMPRESSED) FLAGS_CORR_ID } ∧
+      (recvStub cfg' z [] (bs ++ rest')).rest = rest' := by
+  obtain ⟨h6, h34, s2, e1, l6, l34, hs2⟩ := recvStub_ok cfg z accepted stream d n rest h
+  obtain ⟨H, hp, _, hs3⟩ := stage2_ok cfg z accepted _ s2 d n rest hs2
+  obtain ⟨body, _, _, hadd, _⟩ := stage3_ok z H s2 d n rest hs3
+  have hlen40 : (h6 ++ h34).length = headerSize := by simp [l6, l34, headerSize]
+  obtain ⟨rt, rs, rf, rq, _, ra, rc⟩ := parseHeader_ok_ranges cfg _ H hlen40 hp
+  obtain ⟨hbl, hwalk⟩ := addPayload_walk z H body d hadd
+  obtain ⟨_, _, _, _, ht, hsr, hsq, hcr, hfl⟩ := addPayload_ok z H body d hadd
+  obtain ⟨hnd, hok, hsz⟩ := walk_reencodable H.annSize body H.annSize [] d.anns H.annSize hwalk (by omega)
+    (by simp [keysOf]) (by simp) (by simp [annSize])
+  have hflags : d.flags < 65536 := by
+    rcases hfl with ⟨_, _, hf⟩ | ⟨_, _, hf⟩
+    · rw [hf]; exact rf
+    · rw [hf]; exact Nat.lt_of_le_of_lt (clearBit_le _ _) rf
+  -- the encoder's view of msgOf d under cfg'
+  have hnc : isCompressed cfg' (msgOf d) = false := by simp [isCompressed, hcomp]
+  have hwp : wirePayload cfg' z (msgOf d) = d.data := by
+    unfold wirePayload; rw [hnc]; simp [msgOf]
+  have hhf : headerFlags cfg' (msgOf d) = setBit (clearBit d.flags FLAGS_COMPRESSED) FLAGS_CORR_ID := by
+    unfold headerFlags; rw [hnc]; simp [msgOf]
+  obtain ⟨abytes, habytes⟩ := encodeAnns_ok d.anns hok
+  have henc : ∃ bs, encode cfg' z (msgOf d) = .ok bs := by
+    unfold encode
+    simp only [hwp, hhf]
+    have hm : (msgOf d).anns = d.anns := rfl
+    have hcorr : (msgOf d).corr.getD zeroCorr = d.corr := rfl
+    rw [hm, hcorr]
+    rw [if_neg (by omega)]
+    rw [if_neg (by rw [hcr]; simp [rc])]
+    have hfl2 : setBit (clearBit d.flags FLAGS_COMPRESSED) FLAGS_CORR_ID < 65536 :=
+      setBit64_lt _ (Nat.lt_of_le_of_lt (clearBit_le _ _) hflags)
+    have : ¬ ((msgOf d).type ≥ 256 ∨ (msgOf d).serId ≥ 256 ∨
+        setBit (clearBit d.flags FLAGS_COMPRESSED) FLAGS_CORR_ID ≥ 65536 ∨ (msgOf d).seq ≥ 65536 ∨
+        d.data.length ≥ 2 ^ 32 ∨ annSize d.anns ≥ 2 ^ 32) := by
+      simp only [msgOf, ht, hsr, hsq, not_or, Nat.not_le]
+      exact ⟨rt, rs, hfl2, rq, hdata, by omega⟩
+    rw [if_neg this, habytes]
+    exact ⟨_, rfl⟩
+  obtain ⟨bs, hbs⟩ := henc
+  refine ⟨bs, hbs, ?_⟩
+  have hrt := C06_roundtrip cfg' z (msgOf d) bs rest' [] hz (by simpa [msgOf] using hnd) hbs (Or.inl rfl)
+  refine ⟨?_, hrt.2.1⟩
+  rw [hrt.1]
+  simp [decodedOf, msgOf, zeroCorr]
 
 /-! ### fragmentation: the codec over the socket model of C17 -/
 
